@@ -21,7 +21,7 @@ def TouchesOnlyTimePayloadCrc (p e : List Byte) : Prop :=
 theorem crc_gate (p : List Byte) (hlen : 32 ≤ p.length) (hmod : p.length % 32 = 0) (ms : List Msg)
     (h : decodeFrame p = .ok ms) (hc : hasCrc p) :
     Valid (p.take (18 + frameLen p)) ((p.drop (18 + frameLen p)).take 4) := by
-  sorry
+  exact (Lemmas.CrcFrame.crc_gate p hlen hmod ms h hc).2
 
 /-- any alteration of time stamp, payload or CRC field whose changed bits lie within 32 consecutive bit
     positions (wire order) turns an accepted checksummed frame into one that is reported as an error -/
@@ -29,23 +29,39 @@ theorem burst_rejected (p e : List Byte) (hlen : 32 ≤ p.length) (hmod : p.leng
     (h : decodeFrame p = .ok ms) (hc : hasCrc p) (ht : TouchesOnlyTimePayloadCrc p e)
     (hb : IsBurst (bitsOf (e.take (18 + frameLen p + 4)))) :
     ∃ err, decodeFrame (xorBytes p e) = .err err := by
-  sorry
+  have hfs := (Lemmas.CrcFrame.crc_gate p hlen hmod ms h hc).1
+  refine Lemmas.CrcFrame.altered_rejected p e hlen hmod ms h hc ht.1 ht.2 fun hv => burst_detected _ _ _ hv ?_ hb
+  have := ht.1
+  rw [List.length_take, List.length_take]; omega
 
 /-- the same for one or two flipped bits anywhere in those fields, for every frame length the format allows -/
 theorem one_or_two_bits_rejected (p e : List Byte) (hlen : 32 ≤ p.length) (hmod : p.length % 32 = 0) (ms : List Msg)
     (h : decodeFrame p = .ok ms) (hc : hasCrc p) (ht : TouchesOnlyTimePayloadCrc p e)
     (hw : weight (bitsOf (e.take (18 + frameLen p + 4))) = 1 ∨ weight (bitsOf (e.take (18 + frameLen p + 4))) = 2) :
     ∃ err, decodeFrame (xorBytes p e) = .err err := by
-  sorry
+  have hfs := (Lemmas.CrcFrame.crc_gate p hlen hmod ms h hc).1
+  have hL : leNat ((p.drop 16).take 2) < 256 ^ 2 := Lemmas.Decode.leNat_lt_of_length (by
+    rw [List.length_take, List.length_drop]; omega)
+  have hel := ht.1
+  simp only [frameLen] at hfs hw
+  refine Lemmas.CrcFrame.altered_rejected p e hlen hmod ms h hc ht.1 ht.2 fun hv =>
+    one_two_bits_detected _ _ _ hv ?_ hw ?_
+  · rw [List.length_take, List.length_take]; omega
+  · rw [List.length_take]; omega
 
 /-- byte-aligned corollary: any change confined to 4 consecutive bytes of those fields -/
 theorem four_bytes_rejected (p e : List Byte) (hlen : 32 ≤ p.length) (hmod : p.length % 32 = 0) (ms : List Msg)
     (h : decodeFrame p = .ok ms) (hc : hasCrc p) (ht : TouchesOnlyTimePayloadCrc p e)
     (k : Nat) (hk : ∀ i, (i < k ∨ k + 4 ≤ i) → e.getD i 0 = 0) (hne : ∃ i, e.getD i 0 ≠ 0) :
     ∃ err, decodeFrame (xorBytes p e) = .err err := by
-  sorry
+  exact burst_rejected p e hlen hmod ms h hc ht
+    (Lemmas.CrcFrame.bytes_burst_take e _ k (fun i hi => ht.2 i (Or.inr (Or.inr (Or.inr hi)))) hk hne)
 
 /-- the model's CRC is the published CRC-32: check value of "123456789" -/
 example : crc32 [0x31, 0x32, 0x33, 0x34, 0x35, 0x36, 0x37, 0x38, 0x39] = 0xCBF43926 := by decide +kernel
 
+#print axioms crc_gate
+#print axioms burst_rejected
+#print axioms one_or_two_bits_rejected
+#print axioms four_bytes_rejected
 end Rscp.Props.C04
